@@ -644,11 +644,11 @@ def run_lines_wd(exe, lines, env=None, max_restarts=25):
             elif q.returncode == 0 and out:
                 answers.append(out[0])
             else:
-                deaths.append((idx, q.returncode, q.stderr.decode("utf-8", "replace")[-3000:]))
+                deaths.append((idx, q.returncode, q.stderr.decode("utf-8", "replace")[-16000:]))
                 answers.append("died rc=%d" % q.returncode)
         else:
             try:
-                tail = open(errf, "rb").read().decode("utf-8", "replace")[-3000:]
+                tail = open(errf, "rb").read().decode("utf-8", "replace")[-16000:]
             except OSError:
                 tail = ""
             deaths.append((idx, rc, tail))
@@ -935,7 +935,8 @@ def run(chk, replay=None):
             se = [d for d in deaths if d[0] == i]
             tail = se[0][2] if se else ""
             site = site_of(tail)
-            rep["sanitizer"] = tail[-2500:]
+            at = max(tail.rfind("ERROR: AddressSanitizer"), tail.rfind("runtime error:"), 0)
+            rep["sanitizer"] = tail[at:at + 2500] if at else tail[-2500:]
             chk.violation("reading this input executes undefined behaviour (sanitizer abort in %s): %s"
                           % (site, ln[:160]), rep, tags={"kind": kind, "site": site})
             continue
